@@ -81,12 +81,19 @@ MEM_HARNESSES = [
     # a thread carries on after its validate() raised: its later calls still exclude the other thread's
     [[("w", 1, "badtyped"), ("validate",), ("reset",)], [("w", 2, "tb"), ("flush",)]],
     [[("w", 1, "badtyped"), ("validate",), ("w", 3, "tb")], [("w", 2, "typed"), ("serialize",)]],
+    # the logger is created by the first of the threads that use it (not by a thread that stays out of the way)
+    ["created-by-first-thread", [[("w", 1, "tb"), ("flush",)], [("w", 2, "tb"), ("reset",)]]],
+    ["created-by-first-thread", [[("w", 1, "typed"), ("w", 2, "tb")], [("w", 3, "plain"), ("serialize",)]]],
 ]
 FILE_HARNESSES = [
     [[1, 2], [3]],
     [[1], [2], [3]],
     [[1, 2], [3, 4]],
+    # typed messages sharing one (fresh) serializer, written through the plain Logger to a file destination
+    ["typed", [[1], [2]]],
+    ["typed", [[1, 2], [3]]],
 ]
+VALIDATION_FILE = eliot._validation.__file__
 
 
 def BOUNDS(tier):
@@ -179,25 +186,36 @@ def sequential_outcomes(harness):
 
 
 def run_mem(hi, bound, shard=(0, 1)):
-    harness = [[tuple(op) for op in t] for t in MEM_HARNESSES[hi]]
+    raw = MEM_HARNESSES[hi]
+    by_thread = bool(raw) and raw[0] == "created-by-first-thread"
+    if by_thread:
+        raw = raw[1]
+    harness = [[tuple(op) for op in t] for t in raw]
     world.fresh()
     seq = sequential_outcomes(harness)
     seq_keys = set(repr(o) for o in seq)
 
     def setup(s):
         _output.Lock = thr.CoopLock
-        logger = MemoryLogger()
+        box = {}
+        if not by_thread:
+            box["logger"] = MemoryLogger()
         rets = [[] for _ in harness]
 
         def body(ti):
             def f():
+                if by_thread:
+                    if ti == 0:
+                        box["logger"] = MemoryLogger()
+                    else:
+                        s.block_until(lambda: "logger" in box, ("wait-for-logger",))
                 for op in harness[ti]:
-                    rets[ti].append(_apply(logger, op))
+                    rets[ti].append(_apply(box["logger"], op))
 
             return f
 
         def observe(s):
-            return {"rets": rets, "state": _state(logger)}
+            return {"rets": rets, "state": _state(box["logger"])}
 
         return [("T%d" % i, body(i)) for i in range(len(harness))], observe
 
@@ -258,6 +276,9 @@ class RecFile(object):
 
 def run_file(hi, bound, shard=(0, 1)):
     harness = FILE_HARNESSES[hi]
+    typed = harness[0] == "typed"
+    if typed:
+        harness = harness[1]
     world.fresh()
     import json as _json
 
@@ -265,11 +286,21 @@ def run_file(hi, bound, shard=(0, 1)):
         f = RecFile()
         dest = FileDestination(file=f)
         f.calls[:] = []
+        if typed:
+            world.fresh()
+            eliot.add_destinations(dest)
+            T = MessageType("c16:shared", [Field("id", lambda v: v, ""), Field("thread", lambda v: v, ""),
+                                           Field("pad", lambda v: "<%s>" % v, "")], "")
+            logger = eliot.Logger()
 
         def body(ti):
             def g():
                 for i in harness[ti]:
-                    dest({"id": i, "thread": ti, "pad": "x" * i})
+                    if typed:
+                        logger.write({"message_type": "c16:shared", "id": i, "thread": ti, "pad": "x" * i,
+                                      "task_uuid": "u", "task_level": [i], "timestamp": float(i)}, T._serializer)
+                    else:
+                        dest({"id": i, "thread": ti, "pad": "x" * i})
 
             return g
 
@@ -284,7 +315,8 @@ def run_file(hi, bound, shard=(0, 1)):
     by_pre = {}
     seen = set()
     want = sorted(i for t in harness for i in t)
-    for x in thr.explore(setup, bound, trace_files=[OUT_FILE], shard=shard):
+    for x in thr.explore(setup, bound, trace_files=[OUT_FILE, VALIDATION_FILE] if typed else [OUT_FILE],
+                         trace_funcs={"write", "send", "__call__", "serialize"} if typed else None, shard=shard):
         execs += 1
         transitions += len(x.choices)
         states += 1 + len(x.choices)
@@ -307,6 +339,8 @@ def run_file(hi, bound, shard=(0, 1)):
                     d = _json.loads(l)
                     got.append(d["id"])
                     per_thread.setdefault(d["thread"], []).append(d["id"])
+                    if typed and d.get("pad") != "<%s>" % ("x" * d["id"]):
+                        ok = False
                 except Exception:
                     ok = False
         if not ok or sorted(got) != want:
